@@ -786,8 +786,14 @@ func (c *Cursor) Max(ctx context.Context) error {
 	c.path = c.path[:len(c.path)-1]
 	for {
 		if len(node.Link) == 0 || node.Link[len(node.Link)-1] == nil {
+			last := len(node.Value) - 1
+			if last < 0 {
+				// a node without entries (the top node of an empty tree): stay on
+				// index 0, where Get reports no entry and Forward/Backward step off
+				last = 0
+			}
 			c.path = append(c.path,
-				pathEntry{node, len(node.Value) - 1})
+				pathEntry{node, last})
 			return nil
 		} else {
 			c.path = append(c.path,
